@@ -452,7 +452,17 @@ func (e *SpecEnv) field(x *SX) Term {
 			e.bad("no field %s in %s", x.Tok, el)
 		}
 		hn, hs, fs := u.fieldHeapName(el, idx)
-		return sel(u.heap(e.st, hn, hs), b, fs)
+		t := sel(u.heap(e.st, hn, hs), b, fs)
+		if fs.K == KSlice && e.resolveLocal != nil && !strings.Contains(t.S, "q_") && !u.wfSeen[t.S] {
+			// (loop invariants only) a slice stored in the heap is well formed, as for a load by the program;
+			// without this an invariant would depend on whether the program happened to load the slice before the loop
+			if u.wfSeen == nil {
+				u.wfSeen = map[string]bool{}
+			}
+			u.wfSeen[t.S] = true
+			u.assume(u.wfSlice(t))
+		}
+		return t
 	case KStruct:
 		idx, ok := e.structField(b, x.Tok)
 		if !ok {
